@@ -49,7 +49,7 @@ type onlyReader struct{ r io.Reader }
 func (o onlyReader) Read(p []byte) (int, error) { return o.r.Read(p) }
 
 // parseZone runs the library parser over one rendering and collects everything it returns.
-func parseZone(c *zoneCase, files map[string]string) ([]dns.RR, error) {
+func parseZone(c *zoneCase, files map[string]string, limit int) ([]dns.RR, error) {
 	top := files[c.Zone.FileName]
 	var rd io.Reader = strings.NewReader(top)
 	switch c.Reader {
@@ -75,11 +75,10 @@ func parseZone(c *zoneCase, files map[string]string) ([]dns.RR, error) {
 		zp.SetIncludeFS(m)
 	}
 	var out []dns.RR
-	limit := 4 * zm.MaxGenerateSteps * (len(c.Zone.Items) + 8)
 	for rr, ok := zp.Next(); ok; rr, ok = zp.Next() {
 		out = append(out, rr)
 		if len(out) > limit {
-			return out, fmt.Errorf("parser returned more than %d records", limit)
+			return out, fmt.Errorf("the parser keeps returning records (stopped after %d)", limit)
 		}
 	}
 	return out, zp.Err()
@@ -273,7 +272,7 @@ func evalZone(cp *zoneCase, den *zm.Denotation) error {
 	c := *cp
 	var first []dns.RR
 	for i, r := range c.Renderings {
-		got, perr := parseZone(&c, r.Files)
+		got, perr := parseZone(&c, r.Files, len(den.Recs)+8)
 		if den.Err == "" {
 			if perr != nil {
 				return pbt.Errf("rendering %d: parser reports %v after %d of %d records\n%s", i, perr, len(got), len(den.Recs), showRendering(&c, r))
@@ -523,7 +522,7 @@ func evalFollow(c followCase) error {
 		text = c.Seed[0]
 	}
 	zc := zoneCase{Zone: *z, OriginText: "example.org."}
-	got, perr := parseZone(&zc, map[string]string{z.FileName: text})
+	got, perr := parseZone(&zc, map[string]string{z.FileName: text}, len(den.Recs)+8)
 	if perr != nil {
 		return pbt.Errf("%s record followed by another line: parser reports %v after %d of %d records\n%q", c.Sample, perr, len(got), len(den.Recs), text)
 	}
